@@ -83,11 +83,11 @@ def run(check, pool, Task, with_wrappers=True):
             for sh in ([[3]], [[4]], [[3, 3]], [[3], [3]]):
                 for s in range(2):
                     stasks.append(Task(f'search:pip rings={sh}#{s}', c02.q_pip, (sh, set()), {'mode': 'exact', 'timeout': 150, 'seed': s},
-                                       timeout=200, group=f'search:pip rings={sh}', meta={'kind': 'pip', 'shape': sh}))
+                                       timeout=200, group=f'search:pip rings={sh}', meta={'kind': 'pip', 'shape': sh, 'noretry': True}))
         if 'line' in need:
             for ps in ([2], [3], [2, 2]):
                 stasks.append(Task(f'search:line parts={ps}', c02.q_point_line, (ps, set()), {'mode': 'exact', 'timeout': 150, 'npoints': 2},
-                                   timeout=200, meta={'kind': 'line', 'parts': ps, 'npoints': 2}))
+                                   timeout=200, meta={'kind': 'line', 'parts': ps, 'npoints': 2, 'noretry': True}))
         sres = pool(stasks)
         found = False
         seen = set()
